@@ -205,7 +205,7 @@ def leaf_table_code():
         if "Debug" in tr:
             out.append(f'''
     for i in 0..{n} {{ let a = <{ty} as Leaf>::d(i);
-        println!("[\\"dbgv\\",\\"{ty}\\",{{}},{{}},{{}}]", i, jstr(&format!("{{:?}}", a)), jstr(&format!("{{:#?}}", a))); }}''')
+        println!("[\\"dbgv\\",\\"{ty}\\",{{}},{{}},{{}},{{}},{{}}]", i, jstr(&format!("{{:?}}", a)), jstr(&format!("{{:#?}}", a)), jstr(&format!("{{:7.2?}}", a)), jstr(&format!("{{:#7.2?}}", a))); }}''')
         if mid is None:
             if "Hash" in tr:
                 out.append(f'''
@@ -232,7 +232,7 @@ def leaf_table_code():
     }}''')
         out.append(f'''
     for i in 0..{n} {{ let a = {ty}::d(i); let w = DbgM(&a, dbg_m_{ty});
-        println!("[\\"methd\\",{mid},{{}},{{}},{{}}]", i, jstr(&format!("{{:?}}", w)), jstr(&format!("{{:#?}}", w))); }}''')
+        println!("[\\"methd\\",{mid},{{}},{{}},{{}},{{}},{{}}]", i, jstr(&format!("{{:?}}", w)), jstr(&format!("{{:#?}}", w)), jstr(&format!("{{:7.2?}}", w)), jstr(&format!("{{:#7.2?}}", w))); }}''')
         out.append(f'''
     for i in 0..{n} {{ let a = {ty}::d(i); let mut r = Rec::default(); hash_m_{ty}(&a, &mut r);
         println!("[\\"methh\\",\\"hash\\",{mid},{{}},{{}}]", i, js(&r.0)); }}''')
@@ -273,27 +273,65 @@ class TypeDef:
         if self.extra_derives and not bare:
             out.append("#[derive(%s)]" % ", ".join(self.extra_derives))
         out.append("#[derive(Educe)]")
-        for t in self.traits:
-            out.append("#[educe(%s)]" % t)
-        out += self.attr_src
         # `via_macro`: the definition is the output of a macro_rules! macro whose `$t:ty` fragments are the field types, so
         # that the derive sees every field type inside a None-delimited group (`syn::Type::Group`). Not for the bare form
-        # (the in-process expansion parses the item directly).
-        macro_tys = [] if (getattr(self, "via_macro", False) and not bare) else None
+        # (the in-process expansion parses the item directly). In the "full" form the caller of the macro also supplies the
+        # field names (`$f:ident`), the visibility of the fields that carry no attribute (`$p:vis`: the first token of such a
+        # field then comes from the invocation), the custom method paths (`$m:path` / `$m:ident`) and the Into targets
+        # (`$t:ty`): tokens of another hygiene context than the `#[derive(Educe)]` in the macro body.
+        mode = getattr(self, "via_macro", False) if not bare else False
+        macro_tys = [] if mode else None
+        full = mode == "full"
+
+        def frag(spec, text):
+            macro_tys.append((spec, text))
+            return "$x%d" % (len(macro_tys) - 1)
+
+        def into_targets(a):
+            """`Into(<type>` -> `Into($xN`"""
+            res, pos = "", 0
+            for m in re.finditer(r"\bInto\s*\(", a):
+                if m.start() < pos:
+                    continue
+                i, depth = m.end(), 0
+                while i < len(a) and not (depth == 0 and a[i] in ",)"):
+                    depth += a[i] in "<([" 
+                    depth -= a[i] in ">)]" and not (a[i] == ">" and a[i - 1] == "-")
+                    i += 1
+                ty = a[m.end():i].strip()
+                if not ty or "$" in ty:
+                    continue
+                res += a[pos:m.end()] + frag("ty", ty)
+                pos = i
+            return res + a[pos:]
+
+        def attr_frags(a):
+            if not full or not a.lstrip().startswith("#[educe"):
+                return a
+            a = re.sub(r"\bmethod\s*\(\s*([A-Za-z_][\w]*(?:\s*::\s*[A-Za-z_]\w*)*)\s*\)", lambda m: "method(%s)" % frag("path", m.group(1)), a)
+            a = re.sub(r"\bmethod\s*=\s*([A-Za-z_]\w*)(?=\s*[,)])", lambda m: "method = %s" % frag("ident", m.group(1)), a)
+            return into_targets(a)
+
+        for t in self.traits:
+            out.append(attr_frags("#[educe(%s)]" % t))
+        out += self.attr_src
         head_len = len(out)
 
         def fields_src(v):
             parts = []
             for f in v.fields:
-                a = "".join(x + "\n" for x in f.attr_src)
+                a = "".join(attr_frags(x) + "\n" for x in f.attr_src)
                 ty = getattr(f, "ty_src", f.ty)
                 if macro_tys is not None:
-                    macro_tys.append(ty)
-                    ty = "$t%d" % (len(macro_tys) - 1)
+                    ty = frag("ty", ty)
+                name = frag("ident", f.name) if (full and v.shape == "named") else f.name
+                vis = "pub"
+                if full and not f.attr_src and self.kind != "enum":
+                    vis = frag("vis", "pub")
                 if v.shape == "named":
-                    parts.append("%s pub %s: %s" % (a, f.name, ty))
+                    parts.append("%s %s %s: %s" % (a, vis, name, ty))
                 else:
-                    parts.append("%s pub %s" % (a, ty))
+                    parts.append("%s %s %s" % (a, vis, ty))
             return ", ".join(parts)
 
         if self.kind == "union":
@@ -323,11 +361,13 @@ class TypeDef:
                     vs.append("%s %s { %s }%s" % (a, v.name, fs, d))
             out.append("pub enum %s { %s }" % (self.name, ", ".join(vs)))
         if macro_tys is not None:
-            params = ", ".join("$t%d:ty" % i for i in range(len(macro_tys)))
+            params = ", ".join("$x%d:%s" % (i, spec) for i, (spec, _) in enumerate(macro_tys))
             body = "\n".join(out)
-            out = ["macro_rules! mk_%s { (%s) => {\n%s\n} }" % (self.name, params, body), "mk_%s!(%s);" % (self.name, ", ".join(macro_tys))]
+            out = ["macro_rules! mk_%s { (%s) => {\n%s\n} }" % (self.name, params, body), "mk_%s!(%s);" % (self.name, ", ".join(t for _, t in macro_tys))]
         if not bare:
             out += self.extra_items
+            if getattr(self, "decoys", False) and not getattr(self, "generic", False):
+                out.append("#[allow(dead_code)] impl %s {%s}" % (self.name, DECOY_METHODS))
         return "\n".join(out)
 
     def render_plain(self):
@@ -494,6 +534,26 @@ NOISE_OVERRIDE = None      # C15: force the set of additional traits (None = use
 
 
 VIA_MACRO_P = 0.15
+# inherent methods of the user's type called like the trait methods the derive implements: generated code that wrote
+# `self.cmp(other)` instead of `::core::cmp::Ord::cmp(self, other)` would reach these (the harness calls the traits by path)
+DECOY_P = 0.2
+DECOY_METHODS = """
+    pub fn cmp(&self, _o: &Self) -> ::core::cmp::Ordering { ::core::cmp::Ordering::Equal }
+    pub fn partial_cmp(&self, _o: &Self) -> ::core::option::Option<::core::cmp::Ordering> { ::core::option::Option::None }
+    pub fn eq(&self, _o: &Self) -> bool { false }
+    pub fn ne(&self, _o: &Self) -> bool { false }
+    pub fn lt(&self, _o: &Self) -> bool { false }
+    pub fn le(&self, _o: &Self) -> bool { false }
+    pub fn gt(&self, _o: &Self) -> bool { false }
+    pub fn ge(&self, _o: &Self) -> bool { false }
+    pub fn clone(&self) -> Self { panic!("decoy inherent method called") }
+    pub fn clone_from(&mut self, _o: &Self) { panic!("decoy inherent method called") }
+    pub fn hash<HH: ::core::hash::Hasher>(&self, s: &mut HH) { s.write_u8(0xEE) }
+    pub fn fmt(&self, f: &mut ::core::fmt::Formatter<'_>) -> ::core::fmt::Result { f.write_str("<decoy>") }
+    pub fn default() -> Self { panic!("decoy inherent method called") }
+    pub fn deref(&self) -> &u8 { &0xEE }
+    pub fn deref_mut(&mut self) -> &mut u8 { panic!("decoy inherent method called") }
+"""
 
 
 def assign_discriminants(rng, td, hi=100):
@@ -529,6 +589,10 @@ def finalize_attrs(rng, td, noise=()):
     # derive then sees every field type inside a None-delimited group (syn::Type::Group)
     if not hasattr(td, "via_macro"):
         td.via_macro = srng.random() < VIA_MACRO_P and td.kind != "union" and not getattr(td, "no_macro", False)
+        if td.via_macro and srng.random() < 0.6:
+            td.via_macro = "full"
+    if not hasattr(td, "decoys"):
+        td.decoys = srng.random() < DECOY_P
     # now and then an enum carries written discriminants (and the primitive repr they need next to fields): irrelevant to
     # every trait but the ordering ones, whose generators draw their own
     if (td.kind == "enum" and len(td.variants) >= 2 and srng.random() < 0.1 and not getattr(td, "own_discriminants", False)
